@@ -33,6 +33,10 @@ ASSUMPTIONS = c13.ASSUMPTIONS + ["every declared product has its own installatio
 
 def gen_graph(rng, wide=False):
     g = c13.gen_graph(rng, wide)
+    # tables with an exact and an else branch are C13's (exact-mode objects, VRO without type:exact); `eups remove` runs
+    # under the stock VRO, where the branch a table shows depends on what was resolved before: plain tables here
+    for p in g["products"]:
+        p.pop("xdeps", None)
     for p in g["products"]:
         if rng.random() < 0.2:
             p["tags"] = p["tags"] + ["beta"]
@@ -614,9 +618,9 @@ def run(ctx):
     soft = (lambda: done >= 30 and time.time() - t_run > 55) if not big else (lambda: False)
     while done < n and not ctx.out_of_time() and not soft():
         k = min(15, n - done)
-        evaluate(ctx, [gen_graph(ctx.rng, wide=ctx.tier == "thorough") for _ in range(k)], per_graph=12)
+        evaluate(ctx, [gen_graph(ctx.rng, wide=ctx.tier == "thorough") for _ in range(k)], per_graph=10)
         done += k
-    hg = [gen_graph(ctx.rng) for _ in range(24)] + [c13.enum_graph(i, 2) for i in ids + [(ids[0] + 11) % total, (ids[0] + 23) % total, (ids[0] + 57) % total]]
+    hg = [gen_graph(ctx.rng) for _ in range(16)] + [c13.enum_graph(i, 2) for i in ids + [(ids[0] + 11) % total, (ids[0] + 23) % total, (ids[0] + 57) % total]]
     evaluate_histories(ctx, hg)
     if ctx.evaluations and ctx.distinct_nontrivial < ctx.evaluations * 0.3:
         raise common.InfraError("degenerate distribution: %d non-trivial of %d" % (ctx.distinct_nontrivial, ctx.evaluations))
